@@ -3,8 +3,9 @@ import PytaskProofs.Lemmas.Collect
 # C13 — every declared task is collected exactly once under a unique id
 
 Property theorems only (model: `PytaskModel/Collect.lean`, M9a). `_full` statements that are false of the
-current code are kept as `def … : Prop` with a proved negation (findings F8a, F8b, F12) next to the
-strongest true weakening (`_partial`).
+current code are kept as `def … : Prop` with a proved negation (finding F12) next to the strongest true
+weakening (`_partial`). F8a and F8b were repaired (fix commits 2ddbdf4, faa5f38): `C13_ids_total_full` and
+`C13_cross_hook_full` are proved at full strength over the model of the fixed code.
 -/
 namespace Pytask
 namespace Collect
@@ -96,46 +97,20 @@ theorem C13_ids_sound (enum : List String → List String) (w : World) (tasks : 
   · simp at h3
   · simpa [List.map_map, Function.comp] using h3
 
-/-- **C13_ids_total_full** (the property at full strength for one module's `@task` functions): if
-collection of the decorated functions does not fail, every registered function got a name. -/
-def C13_ids_total_full : Prop :=
-  ∀ (enum : List String → List String) (w : World) (tasks : List ObjId) (d : Dict),
-    (∀ l, (enum l).Perm l) → tasks.Nodup → parseCollected enum w tasks = some d → ∀ o ∈ tasks, ∃ k, (k, o) ∈ d
-
 def f8aFn (name : String) (tag : Nat) : FnObj :=
   { file := ["r", "task_m.py"], fname := "_", params := [], defaults := [], tag := tag, marked := true,
     metaName := name, metaId := none, metaKwargs := [] }
 
-/-- F8a witness: a loop creating two `@task(name="f")` functions and `@task(name="f[0]") def g()`. -/
-def f8aWorld : World :=
-  { heap := [((0, 1), f8aFn "f" 1), ((0, 2), f8aFn "f" 2), ((0, 3), f8aFn "f[0]" 3)], registry := [], modules := [], nextGen := 1 }
-
-/-- **Finding F8a**: the full statement is false — the generated id `f[0]` of the loop's first function
-is overwritten by the explicit name `f[0]`; two of three functions survive and no error is raised. -/
-theorem C13_ids_total_full_false : ¬ C13_ids_total_full := by
-  intro h
-  have hd : parseCollected id f8aWorld [(0, 1), (0, 2), (0, 3)] = some [("f[0]", (0, 3)), ("f[1]", (0, 2))] := by decide
-  obtain ⟨k, hk⟩ := h id f8aWorld [(0, 1), (0, 2), (0, 3)] _ (fun l => List.Perm.refl l) (by decide) hd (0, 1) (by simp)
-  simp at hk
-
-/-- Ids of different name groups never coincide (what F8a violates). -/
-def NoClash (w : World) (tasks : List ObjId) : Prop :=
-  ∀ n1 n2 c1 c2, n1 ≠ n2 → contribution w (parsedOf w tasks) n1 = some c1 → contribution w (parsedOf w tasks) n2 = some c2 →
-    ∀ k ∈ c1.map Prod.fst, k ∉ c2.map Prod.fst
-
-/-- **C13_ids_total_partial.** Outside the F8a class (no generated or plain id of one name group equals
-an id of another group), for every iteration order of the set `all_names`: if the decorated functions of
-a module are parsed without error, every one of them is in the result — none is dropped. -/
-theorem C13_ids_total_partial (enum : List String → List String) (w : World) (tasks : List ObjId) (d : Dict)
-    (hperm : ∀ l, (enum l).Perm l) (hnc : NoClash w tasks) (h : parseCollected enum w tasks = some d) :
+/-- **C13_ids_total_full** (the property at full strength for one module's `@task` functions, true since
+fix 2ddbdf4): for every iteration order of the set `all_names`, if the decorated functions of a module
+are parsed without error, every registered function is in the result — none is dropped or overwritten. -/
+theorem C13_ids_total_full (enum : List String → List String) (w : World) (tasks : List ObjId) (d : Dict)
+    (hperm : ∀ l, (enum l).Perm l) (h : parseCollected enum w tasks = some d) :
     ∀ o ∈ tasks, ∃ k, (k, o) ∈ d := by
   intro o ho
   unfold parseCollected at h
   have hp := hperm (dedup ((parsedOf w tasks).map (·.1)))
   obtain ⟨_, h2⟩ := foldl_parseStep_complete w (parsedOf w tasks) _ [] d h
-    (hp.nodup_iff.2 (nodup_dedup _)) (by simp) (by
-      intro n1 _ n2 _ hne c1 c2 hc1 hc2
-      exact hnc n1 n2 c1 c2 hne hc1 hc2)
   have hn : metaNameOf w o ∈ enum (dedup ((parsedOf w tasks).map (·.1))) := by
     apply hp.mem_iff.2
     apply (mem_dedup _ _).2
@@ -148,11 +123,40 @@ theorem C13_ids_total_partial (enum : List String → List String) (w : World) (
   obtain ⟨e, he, heo⟩ := List.mem_map.1 this
   exact ⟨e.1, by have := hcd e he; rw [← heo]; exact this⟩
 
-/-- **C13_decorator_exact.** Outside the F8a class, for pairwise different registered function objects
-(what `_raise_error_when_task_functions_are_duplicated` guarantees) and every iteration order: a
-successful parse yields every registered function exactly once, under pairwise distinct names. -/
+/-- **C13_id_clash_fails** (the repair of F8a). If the ids of two different name groups coincide — the
+generated id `f[0]` of a repeated name and an explicit name `f[0]`, or two generated ids — parsing fails
+(`ValueError` → failed collection report → exit code 3) in whatever order the names are visited. -/
+theorem C13_id_clash_fails (enum : List String → List String) (w : World) (tasks : List ObjId) (hperm : ∀ l, (enum l).Perm l)
+    (n1 n2 : String) (c1 c2 : Dict) (k : String) (hne : n1 ≠ n2)
+    (hc1 : contribution w (parsedOf w tasks) n1 = some c1) (hc2 : contribution w (parsedOf w tasks) n2 = some c2)
+    (hk1 : k ∈ c1.map Prod.fst) (hk2 : k ∈ c2.map Prod.fst) : parseCollected enum w tasks = none := by
+  have mem : ∀ n c, contribution w (parsedOf w tasks) n = some c → k ∈ c.map Prod.fst →
+      n ∈ enum (dedup ((parsedOf w tasks).map (·.1))) := by
+    intro n c hc hk
+    apply (hperm _).mem_iff.2
+    apply (mem_dedup _ _).2
+    obtain ⟨e, he, _⟩ := List.mem_map.1 hk
+    have hs := (contribution_spec w _ _ c hc).2
+    have : e.2 ∈ c.map Prod.snd := List.mem_map.2 ⟨e, he, rfl⟩
+    rw [hs] at this
+    obtain ⟨x, hx, _⟩ := List.mem_map.1 this
+    have hx' := List.mem_filter.1 hx
+    exact List.mem_map.2 ⟨x, hx'.1, by simpa using hx'.2⟩
+  unfold parseCollected
+  exact foldl_parseStep_none_of_clash w _ n1 n2 c1 c2 k hne hc1 hc2 hk1 hk2 _ [] (mem n1 c1 hc1 hk1) (mem n2 c2 hc2 hk2)
+
+/-- The former F8a witness (a loop creating two `@task(name="f")` functions and `@task(name="f[0]") def g()`),
+now a corpus case: parsing fails instead of dropping the loop's first function. -/
+def f8aWorld : World :=
+  { heap := [((0, 1), f8aFn "f" 1), ((0, 2), f8aFn "f" 2), ((0, 3), f8aFn "f[0]" 3)], registry := [], modules := [], nextGen := 1 }
+example : parseCollected id f8aWorld [(0, 1), (0, 2), (0, 3)] = none ∧
+    parseCollected List.reverse f8aWorld [(0, 1), (0, 2), (0, 3)] = none := by decide
+
+/-- **C13_decorator_exact.** For pairwise different registered function objects (what
+`_raise_error_when_task_functions_are_duplicated` guarantees) and every iteration order: a successful
+parse yields every registered function exactly once, under pairwise distinct names. -/
 theorem C13_decorator_exact (enum : List String → List String) (w : World) (tasks : List ObjId) (d : Dict)
-    (hperm : ∀ l, (enum l).Perm l) (hnd : tasks.Nodup) (hnc : NoClash w tasks) (h : parseCollected enum w tasks = some d) :
+    (hperm : ∀ l, (enum l).Perm l) (hnd : tasks.Nodup) (h : parseCollected enum w tasks = some d) :
     (d.map Prod.fst).Nodup ∧ (d.map Prod.snd).Nodup ∧ ∀ o, o ∈ d.map Prod.snd ↔ o ∈ tasks := by
   have hs := C13_ids_sound enum w tasks d h
   refine ⟨hs.1, ?_, fun o => ⟨?_, ?_⟩⟩
@@ -162,13 +166,12 @@ theorem C13_decorator_exact (enum : List String → List String) (w : World) (ta
       have : (parsedOf w tasks).map Prod.snd = tasks := by
         unfold parsedOf; rw [List.map_map]; exact List.map_id'' (fun _ => rfl) tasks
       rw [this]; exact hnd
-    exact foldl_parseStep_vals w (parsedOf w tasks) hpn _ [] d h (hp.nodup_iff.2 (nodup_dedup _)) (by simp)
-      (by intro n1 _ n2 _ hne c1 c2 hc1 hc2; exact hnc n1 n2 c1 c2 hne hc1 hc2) (by simp) (by simp)
+    exact foldl_parseStep_vals w (parsedOf w tasks) hpn _ [] d h (hp.nodup_iff.2 (nodup_dedup _)) (by simp) (by simp)
   · intro ho
     obtain ⟨e, he, rfl⟩ := List.mem_map.1 ho
     exact hs.2 e he
   · intro ho
-    obtain ⟨k, hk⟩ := C13_ids_total_partial enum w tasks d hperm hnc h o ho
+    obtain ⟨k, hk⟩ := C13_ids_total_full enum w tasks d hperm h o ho
     exact List.mem_map.2 ⟨(k, o), hk, rfl⟩
 
 /-- **C13_dup_id_fails.** If two functions of one repeated name get the same id — equal explicit ids,
@@ -203,7 +206,7 @@ def dupWorld : World :=
     registry := [], modules := [], nextGen := 1 }
 example : parseCollected id dupWorld [(0, 1), (0, 2)] = none := by decide
 example : taskId dupWorld ["x"] "f" 0 (0, 1) = "f[1]" ∧ taskId dupWorld ["x"] "f" 1 (0, 2) = "f[1]" := by decide
-/-- Non-vacuity of `C13_ids_total_partial`: bool / int / float / str / other arguments give `f[True-x0]`, … -/
+/-- Non-vacuity of `C13_ids_total_full` / `C13_decorator_exact`: bool / int / float / str / other arguments give `f[True-x0]`, … -/
 def okWorld : World :=
   { heap := [((0, 1), { f8aFn "f" 1 with params := ["x", "y"], defaults := [("x", Val.bool true), ("y", Val.other)] }),
              ((0, 2), { f8aFn "f" 2 with params := ["x", "y"], defaults := [("x", Val.float "1.0"), ("y", Val.int (-1))] }),
@@ -211,6 +214,17 @@ def okWorld : World :=
     registry := [], modules := [], nextGen := 1 }
 example : parseCollected id okWorld [(0, 1), (0, 2), (0, 3)]
     = some [("f[True-y0]", (0, 1)), ("f[1.0--1]", (0, 2)), ("g", (0, 3))] := by decide
+
+theorem collect_fail_exit (env : Env) (enum : List String → List String)
+    (h : Report.fail ∈ (collectReports env enum).2) : (collect env enum).exit = 3 := by
+  unfold collect
+  have : ((collectReports env enum).2.filter Report.isFail).length ≠ 0 := by
+    intro h0
+    have := List.length_eq_zero_iff.1 h0
+    have hm : Report.fail ∈ (collectReports env enum).2.filter Report.isFail := List.mem_filter.2 ⟨h, rfl⟩
+    rw [this] at hm; simp at hm
+  simp only [beq_iff_eq, this, ↓reduceIte]
+  decide
 
 /-! ## The two hooks -/
 
@@ -298,14 +312,8 @@ theorem collectFile_ok (env : Env) (enum : List String → List String) (w w1 w2
     collectFile env enum w path = (w2, prefixReports w1 path m ++ rs) := by
   simp [collectFile, htf, Generated.collectFileOrder, collectFileStep, hi, hd]
 
-/-- **C13_cross_hook_full**: the tasks collected from one module have pairwise distinct `(path, base_name)`,
-i.e. distinct names and signatures. -/
-def C13_cross_hook_full : Prop :=
-  ∀ (env : Env) (enum : List String → List String) (w : World) (path : Path),
-    ((collectFile env enum w path).2.filterMap Report.key).Nodup
-
 def f8bRoot : Path := ["r", "proj"]
-/-- F8b witness: `def task_x()` and `@task(name="task_x") def other()` in one module. -/
+/-- The former F8b witness: `def task_x()` and `@task(name="task_x") def other()` in one module. -/
 def f8bEnv : Env :=
   { fs := { pre := ["r"], tree := .dir "proj" [.file "task_m.py"] },
     cfg := { root := f8bRoot, paths := [f8bRoot], ignore := [], taskFiles := Generated.defaultTaskFiles },
@@ -313,22 +321,35 @@ def f8bEnv : Env :=
       .defFn 1 (some "task_x") "task_x" [] [] 1, .defFn 2 (some "other") "other" [] [] 2, .wrap 2 (some "task_x") none []] })],
     preloaded := [] }
 
-/-- **Finding F8b**: the full statement is false — both functions are collected as `task_m.py::task_x`;
-collection succeeds (exit code 0) and only the second body is executed. -/
-theorem C13_cross_hook_full_false : ¬ C13_cross_hook_full := by
-  intro h
-  have := h f8bEnv id f8bEnv.init (f8bRoot ++ ["task_m.py"])
-  have hk : (collectFile f8bEnv id f8bEnv.init (f8bRoot ++ ["task_m.py"])).2.filterMap Report.key
-      = [(f8bRoot ++ ["task_m.py"], "task_x"), (f8bRoot ++ ["task_m.py"], "task_x")] := by decide
-  rw [hk] at this
-  simp at this
+/-- **C13_cross_hook_full** (true since fix faa5f38): all tasks of a session — across both hooks, all
+modules, all given paths — have pairwise distinct `(path, base_name)`, i.e. distinct names and signatures. -/
+theorem C13_cross_hook_full (env : Env) (enum : List String → List String) :
+    ((collect env enum).tasks.map (fun t => ((t.path, t.base) : TKey))).Nodup := by
+  unfold collect
+  simp only
+  rw [filterMap_task_keys]
+  unfold collectReports
+  simp only [Generated.collectDupSignaturePass, ↓reduceIte, failDups]
+  exact (failDupsLoop_keys _ []).1
 
-example : (collect f8bEnv id).exit = 0 ∧ (collect f8bEnv id).tasks.map (·.tag) = [1, 2] ∧
-    (executed (collect f8bEnv id).tasks).map (·.tag) = [2] := by decide
+/-- **C13_dup_signature_fails** (the repair of F8b). If two successful collection reports carry the same
+`(path, base_name)` — a `task_` function and an `@task` function of the same name in one module — the later
+one becomes a failed report and the build ends with exit code 3: neither is silently dropped by the DAG. -/
+theorem C13_dup_signature_fails (env : Env) (enum : List String → List String) (pre mid post : List Report)
+    (p : Path) (b : String) (o1 o2 : ObjId)
+    (h : (rawReports env enum).2 = pre ++ Report.succ p b o1 :: mid ++ Report.succ p b o2 :: post) :
+    (collect env enum).exit = 3 := by
+  apply collect_fail_exit
+  unfold collectReports
+  simp only [Generated.collectDupSignaturePass, ↓reduceIte, failDups, h]
+  exact failDups_two pre mid post [] p b o1 o2
 
-/-- **C13_cross_hook_partial.** Outside the F8b class (no `task_` function of the module carries a base
-name that the decorator hook also produces), the tasks of one module have pairwise distinct
-`(path, base_name)` — for every iteration order, every world the module is imported into. -/
+/-- the corpus case end to end: one failed report, exit code 3, only the first function is a task. -/
+example : (collect f8bEnv id).exit = 3 ∧ (collect f8bEnv id).fails = 1 ∧ (collect f8bEnv id).tasks.map (·.tag) = [1] := by decide
+
+/-- **C13_cross_hook_partial.** When no `task_` function of a module carries a base name that the decorator hook
+also produces, the reports of that module already have pairwise distinct `(path, base_name)` — the
+duplicate-signature pass fails nothing of it. -/
 theorem C13_cross_hook_partial (env : Env) (enum : List String → List String) (w w1 w2 : World) (path : Path) (m : Module)
     (rs : List Report) (htf : env.cfg.isTaskFile path = true) (hi : importPath env w path = (w1, some m))
     (hd : decoratorReports enum w1 path = (w2, some rs))
@@ -470,17 +491,6 @@ theorem C13_import_own_partial (env : Env) (w : World) (path : Path) (hp : pkgTo
 
 /-! ## Failures are loud: exit code 3 -/
 
-theorem collect_fail_exit (env : Env) (enum : List String → List String)
-    (h : Report.fail ∈ (collectReports env enum).2) : (collect env enum).exit = 3 := by
-  unfold collect
-  have : ((collectReports env enum).2.filter Report.isFail).length ≠ 0 := by
-    intro h0
-    have := List.length_eq_zero_iff.1 h0
-    have hm : Report.fail ∈ (collectReports env enum).2.filter Report.isFail := List.mem_filter.2 ⟨h, rfl⟩
-    rw [this] at hm; simp at hm
-  simp only [beq_iff_eq, this, ↓reduceIte]
-  decide
-
 /-- **C13_exit.** The session's exit code is `COLLECTION_FAILED` (3) exactly when some collection report
 failed, and `OK`'s code otherwise (before DAG construction and execution). -/
 theorem C13_exit (env : Env) (enum : List String → List String) :
@@ -495,9 +505,12 @@ were collected (defined in a module that is not a task module, or whose module w
 another file's name) becomes a failed report: the build ends with exit code 3, the function is not
 silently ignored. -/
 theorem C13_leftovers_fail (env : Env) (enum : List String → List String) (k : Path) (os : List ObjId) (o : ObjId)
-    (hk : (k, os) ∈ (collectReports env enum).1.registry) (ho : o ∈ os) : (collect env enum).exit = 3 := by
+    (hk : (k, os) ∈ (rawReports env enum).1.registry) (ho : o ∈ os) : (collect env enum).exit = 3 := by
   apply collect_fail_exit
   unfold collectReports
+  simp only [Generated.collectDupSignaturePass, ↓reduceIte, failDups]
+  apply failDupsLoop_fail
+  unfold rawReports
   simp only
   apply List.mem_append.2; right
   unfold leftovers
@@ -511,6 +524,9 @@ theorem C13_file_fail_exit (env : Env) (enum : List String → List String) (pre
     (collect env enum).exit = 3 := by
   apply collect_fail_exit
   unfold collectReports
+  simp only [Generated.collectDupSignaturePass, ↓reduceIte, failDups]
+  apply failDupsLoop_fail
+  unfold rawReports
   simp only [hfiles]
   exact List.mem_append.2 (Or.inl (foldl_collectStep_split env enum pre post p _ _ hf))
 
